@@ -1137,6 +1137,32 @@ def compileMofItemsNoRestore (ns : Name) (items : List MofItem) : M Unit :=
 def compileMofItems (ns : Name) (items : List MofItem) : M Unit :=
   validateNs ns >>= fun _ => withRollback (mofItems ns items >>= fun _ => pure ())
 
+/-! #### compile_schema_classes: a list of schema pragma files -/
+
+/-- one schema pragma file as far as `compile_schema_classes(class_names, [files…])` looks at it: either it does not
+    list one of the requested classes (`build_schema_mof` raises ValueError before anything is compiled), or the
+    include pragmas it lists for them pull in class files with these productions -/
+inductive SchemaFile where
+  | notListed
+  | items (is : List MofItem)
+  deriving Inhabited
+
+/-- the body of the loop: `build_schema_mof(...)`, then `self.compile_mof_string(compile_pragma, namespace, …)`
+    (which validates the namespace and restores its own snapshot when it fails) -/
+def compileSchemaFile (ns : Name) : SchemaFile → M Unit
+  | .notListed => raise .valueError
+  | .items is => compileMofItems ns is
+
+/-- mirrors FakedWBEMConnection.compile_schema_classes: ONE snapshot around the loop over the pragma files (in
+    addition to the one each compile_mof_string call takes) -/
+def compileSchemaClasses (ns : Name) (files : List SchemaFile) : M Unit :=
+  withRollback (forM_ (compileSchemaFile ns) files)
+
+/-- compile_schema_classes with only the per-file restore (what a snapshot taken INSIDE the loop amounts to): kept to
+    state why the outer snapshot is needed (`C11.compileSchemaClasses_per_file_restore_not_atomic`) -/
+def compileSchemaClassesPerFileRestore (ns : Name) (files : List SchemaFile) : M Unit :=
+  forM_ (compileSchemaFile ns) files
+
 /-- mirrors FakedWBEMConnection.compile_mof_string (MOF without compiler directives) -/
 def compileMof (ns : Name) (ps : List Prod) : M Unit := compileMofItems ns (ps.map MofItem.prod)
 
@@ -1157,6 +1183,7 @@ inductive Op where
   | addObject (ns : Name) (o : Obj)
   | compileMof (ns : Name) (ps : List Prod)
   | compileMofItems (ns : Name) (items : List MofItem)
+  | compileSchemaClasses (ns : Name) (files : List SchemaFile)
   deriving Inhabited
 
 def Op.run : Op → M Unit
@@ -1174,6 +1201,7 @@ def Op.run : Op → M Unit
   | .addObject ns o => do validateNs ns; Atomic.addObject ns o
   | .compileMof ns ps => Atomic.compileMof ns ps
   | .compileMofItems ns items => Atomic.compileMofItems ns items
+  | .compileSchemaClasses ns files => Atomic.compileSchemaClasses ns files
 
 /-- one step of a history: new state and the outcome (`none` = returned normally) -/
 def step (s : State) (op : Op) : State × Option PyExc :=
